@@ -21,7 +21,11 @@ LIB = str(C.REPO / 'dataclass_wizard') + os.sep
 INF = 10 ** 12
 
 
-def run_schedule(bodies, plan, opcode=False, record=False, timeout=20.0, trace_extra=(), touch=None, block_after=0.12):
+HANG_AFTER = 6.0       # seconds without any event / return after which a call counts as one that never returns
+
+
+def run_schedule(bodies, plan, opcode=False, record=False, timeout=20.0, trace_extra=(), touch=None, block_after=0.12,
+                 hang_after=None):
     """-> dict(results=[('ok', v)|('err', exc)], counts=[events per thread], log=[[ (file, line) ]], stuck=bool)
 
     `opcode`: False = line events of library files and generated code; True = opcode events of the same frames; a tuple of
@@ -215,7 +219,10 @@ def run_schedule(bodies, plan, opcode=False, record=False, timeout=20.0, trace_e
             if now - since < block_after or finished[c]:
                 continue
             if all(finished[t] or t in blocked or t == c for t in range(n)):
-                continue                    # nobody else could run: keep waiting (a long C call, or a real deadlock -> timeout)
+                # nobody else could run: keep waiting (a long C call, or a real deadlock -> `hang_after` / timeout)
+                if hang_after is not None and now - since > hang_after:
+                    break
+                continue
             blocked.add(c)
             st['blocked_seen'] += 1
             nxt = pick_next()
@@ -264,6 +271,18 @@ def run_case_in_child(scn, plan, opcode=False, record=False):
     mod = types.ModuleType(name)
     sys.modules[name] = mod
     ns = mod.__dict__
+    if scn.get('files') is not None:
+        # {relative path: text} written below a fresh directory the scenario names as TMP (dotenv files, secrets directories)
+        import tempfile
+        tmp = tempfile.mkdtemp(prefix='dwv_c20_')
+        for relp, text in scn['files'].items():
+            path = os.path.join(tmp, relp)
+            os.makedirs(os.path.dirname(path), exist_ok=True)
+            with open(path, 'w') as fh:
+                fh.write(text)
+        for relp in scn.get('dirs') or []:
+            os.makedirs(os.path.join(tmp, relp), exist_ok=True)
+        ns['TMP'] = tmp
     exec(compile(scn['src'], f'<{name}>', 'exec', dont_inherit=True), ns)
     for stmt in scn.get('pre', []):
         exec(compile(stmt, '<pre>', 'exec', dont_inherit=True), ns)
@@ -279,15 +298,36 @@ def run_case_in_child(scn, plan, opcode=False, record=False):
     # a thread waiting for a lock held by a pre-empted thread is expected where an import is in flight (import lock):
     # short patience there; elsewhere a long one, so that a slow machine does not make schedules irreproducible
     out = run_schedule(bodies, plan, opcode=opcode, record=record, trace_extra=trace_extra, touch=touch,
-                       block_after=0.08 if scn.get('fresh_modules') else 0.5)
+                       block_after=0.08 if scn.get('fresh_modules') else 0.5, hang_after=HANG_AFTER)
+    # the follow-up calls: one after the other, each on a thread of its own that is none of the scenario's threads (the caller
+    # of a library is not the thread that raced).  A call that has not returned after HANG_AFTER seconds is recorded as such -
+    # an outcome no sequential order has - and the remaining ones are not started.
     post = []
+    hung = out['stuck']
     for expr in scn.get('post', []):
-        try:
-            post.append(canon_outcome(('ok', eval(compile(expr, '<post>', 'eval', dont_inherit=True), ns))))
-        except BaseException as e:      # noqa
-            post.append(canon_outcome(('err', e)))
+        if hung:
+            post.append(['not-run'])
+            continue
+        box = []
+
+        def call(expr=expr, box=box):
+            try:
+                box.append(canon_outcome(('ok', eval(compile(expr, '<post>', 'eval', dont_inherit=True), ns))))
+            except BaseException as e:      # noqa
+                box.append(canon_outcome(('err', e)))
+        th = threading.Thread(target=call, daemon=True)
+        th.start()
+        th.join(HANG_AFTER)
+        if box:
+            post.append(box[0])
+        else:
+            hung = True
+            post.append(['never-returned'])
+    if scn.get('files') is not None:
+        import shutil
+        shutil.rmtree(ns['TMP'], ignore_errors=True)
     return {'outcomes': [canon_outcome(r) for r in out['results']], 'post': post, 'counts': out['counts'], 'log': out['log'],
-            'stuck': out['stuck'], 'switches': out['switches'], 'blocked': out.get('blocked', 0)}
+            'stuck': out['stuck'], 'switches': out['switches'], 'blocked': out.get('blocked', 0), 'hung': hung}
 
 
 # ---------------------------------------------------------------------------------------------------------------
@@ -434,15 +474,18 @@ def _child(fn, item, w):
         os._exit(code)
 
 
-def fork_map(fn, items, nproc=None, timeout=60.0):
-    """fn(item) evaluated in one fresh forked child per item, up to `nproc` at a time; results in order"""
+def fork_map(fn, items, nproc=None, timeout=60.0, stop=None):
+    """fn(item) evaluated in one fresh forked child per item, up to `nproc` at a time; results in order.
+    `stop(result)`: called with every result as it arrives; once it has returned true no further child is started and the
+    items not started get the result {'skipped': True}."""
     nproc = nproc or min(16, os.cpu_count() or 4)
     results = [None] * len(items)
     pending = {}        # fd -> (index, pid, chunks)
     nxt = 0
     import time
-    while nxt < len(items) or pending:
-        while nxt < len(items) and len(pending) < nproc:
+    stopped = False
+    while (nxt < len(items) and not stopped) or pending:
+        while nxt < len(items) and len(pending) < nproc and not stopped:
             r, w = os.pipe()
             pid = os.fork()
             if pid == 0:
@@ -471,6 +514,8 @@ def fork_map(fn, items, nproc=None, timeout=60.0):
                 results[idx] = pickle.loads(b''.join(chunks))
             except Exception:
                 results[idx] = {'harness_error': 'no data from child'}
+            if stop is not None and not stopped and stop(results[idx]):
+                stopped = True
         for fd, (idx, pid, chunks, t0) in list(pending.items()):
             if now - t0 > timeout:
                 try:
@@ -481,4 +526,6 @@ def fork_map(fn, items, nproc=None, timeout=60.0):
                 os.waitpid(pid, 0)
                 del pending[fd]
                 results[idx] = {'stuck': True, 'outcomes': None, 'counts': None, 'log': None, 'post': None, 'switches': 0}
+    for i in range(nxt, len(items)):
+        results[i] = {'skipped': True}
     return results
